@@ -106,8 +106,54 @@ LocaOK(x) ==
         x.locaLen >= need /\ (x.built.loca => x.locaLen = need)
      /\ x.locaMonotone                      \* over the numGlyphs + 1 offsets
      /\ x.locaLast <= x.glyfLen
+     /\ (x.built.loca => x.glyfLen - x.locaLast <= 3)    \* a glyf table the library built ends where loca says
      /\ x.maxCompId < x.numGlyphs           \* -1 when there is no composite
      /\ x.glyphsParse
+
+\* ---- glyph records ---------------------------------------------------------
+\* Every glyph record (the bytes between two loca offsets) is walked by the independent reader,
+\* which reports its LAYOUT; records of one font with the same layout are folded into a class:
+\*   [kind, ok, flags, instr, used, len, why, count, first]
+\* ok    : the walk found the whole structure inside the record
+\* flags : composite - the flag word of every component, in order
+\* instr : length of the instruction block, -1 when the record has none
+\* used  : bytes consumed by the walk, len : bytes loca gives the record
+\* The size of a composite record is a function of its flag words alone; it is recomputed here.
+FlagBit(f, k) == (f \div (2 ^ k)) % 2 = 1
+ArgsAreWords(f)     == FlagBit(f, 0)
+MoreComponents(f)   == FlagBit(f, 5)
+HaveInstructions(f) == FlagBit(f, 8)
+ComponentBytes(f) ==
+  4                                                    \* flags, glyphIndex
+  + (IF ArgsAreWords(f) THEN 4 ELSE 2)                 \* argument1, argument2: width announced by bit 0
+  + (IF FlagBit(f, 3) THEN 2 ELSE IF FlagBit(f, 6) THEN 4 ELSE IF FlagBit(f, 7) THEN 8 ELSE 0)
+RECURSIVE ComponentsBytes(_)
+ComponentsBytes(fs) == IF fs = <<>> THEN 0 ELSE ComponentBytes(fs[1]) + ComponentsBytes(Tail(fs))
+CompositeBytes(c) == 10 + ComponentsBytes(c.flags) + (IF c.instr >= 0 THEN 2 + c.instr ELSE 0)
+
+GlyphClassOK(c, rewritten) ==
+  /\ c.ok
+  /\ c.used <= c.len
+  /\ (c.kind = "composite" =>
+        /\ Len(c.flags) >= 1
+        \* the component chain ends exactly at the first flag word without MORE_COMPONENTS
+        /\ \A k \in 1 .. Len(c.flags) : MoreComponents(c.flags[k]) <=> k < Len(c.flags)
+        \* an instruction block is present iff some component announces it
+        /\ (c.instr >= 0) <=> (\E k \in 1 .. Len(c.flags) : HaveInstructions(c.flags[k]))
+        \* argument widths / transform sizes as the flags announce them add up to what was read
+        /\ c.used = CompositeBytes(c))
+  \* a record the library serialised itself is its structure plus alignment padding, nothing else
+  /\ (rewritten => c.len - c.used <= 3)
+
+GlyphsOK(x) ==
+  (x.has.glyf /\ x.has.loca /\ x.has.head /\ x.has.maxp /\ x.glyfWalked) =>
+     \A k \in 1 .. Len(x.glyphClasses) : GlyphClassOK(x.glyphClasses[k], x.built.glyf)
+
+\* head.flags bit 1 announces "left sidebearing point at x = 0", i.e. hmtx.lsb = glyf.xMin for every
+\* glyph with an outline. Real fonts break the promise themselves, and subsetting copies all three
+\* tables, so it is demanded of an output only if the SOURCE kept it (x.srcLsbClean).
+LsbOK(x) == (x.headLsbBit /\ x.srcLsbClean) => x.lsbMismatch = 0
+
 CffOK(x)  == (x.has.cff /\ x.has.maxp) => x.cffCharstrings = x.numGlyphs
 CmapOK(x) == (x.has.cmap /\ x.has.maxp) => x.cmapParses /\ x.cmapMaxGid < x.numGlyphs
 PostOK(x) == x.has.post => (x.postVersion = <<3, 0>> => x.postLen = 32)
@@ -116,11 +162,12 @@ ReloadOK(x) ==
                     /\ x.reload.advances = x.numGlyphs
                     /\ x.reload.outlines = x.numGlyphs
 
-CrossTableOK(x) == HmtxOK(x) /\ LocaOK(x) /\ CffOK(x) /\ CmapOK(x) /\ PostOK(x) /\ ReloadOK(x)
+CrossTableOK(x) == HmtxOK(x) /\ LocaOK(x) /\ GlyphsOK(x) /\ LsbOK(x) /\ CffOK(x) /\ CmapOK(x) /\ PostOK(x) /\ ReloadOK(x)
 CrossViolated(x) ==
   (IF HmtxOK(x) THEN {} ELSE {"HmtxOK"}) \cup (IF LocaOK(x) THEN {} ELSE {"LocaOK"})
   \cup (IF CffOK(x) THEN {} ELSE {"CffOK"}) \cup (IF CmapOK(x) THEN {} ELSE {"CmapOK"})
   \cup (IF PostOK(x) THEN {} ELSE {"PostOK"}) \cup (IF ReloadOK(x) THEN {} ELSE {"ReloadOK"})
+  \cup (IF GlyphsOK(x) THEN {} ELSE {"GlyphsOK"}) \cup (IF LsbOK(x) THEN {} ELSE {"LsbOK"})
 
 ---------------------------------------------------------------------------
 \* MODEL of FontBuilder: tables keyed by tag (a later add of the same tag replaces the earlier
